@@ -342,10 +342,10 @@ def build_file(bm, row, salt, public_list):
             data = data.replace(b'\n', b'\r\n')
         parts.append(data)
         exps.append(exp)
-    blob = b''.join(parts)
     if not row['finalnl'] and row['blocks'] and row['blocks'][-1] != 'der':
-        blob = blob.rstrip(b'\r\n')
-    return blob, exps
+        # no line end after the last text block (never touch DER bytes)
+        parts[-1] = parts[-1].rstrip(b'\r\n')
+    return b''.join(parts), exps
 
 
 _mem_files = {}
@@ -566,10 +566,16 @@ def pyca_write_public(pk, fmt):
 
 
 def keygen(args, stdin=None):
-    p = subprocess.run([SSH_KEYGEN] + args, input=stdin,
-                       stdout=subprocess.PIPE, stderr=subprocess.PIPE,
-                       timeout=60)
-    return p.returncode, p.stdout, p.stderr
+    for timeout in (60, 600):           # a loaded machine: retry once, long
+        try:
+            p = subprocess.run([SSH_KEYGEN] + args, input=stdin,
+                               stdout=subprocess.PIPE, stderr=subprocess.PIPE,
+                               timeout=timeout)
+            return p.returncode, p.stdout, p.stderr
+        except subprocess.TimeoutExpired:
+            if timeout == 600:
+                raise
+    raise AssertionError
 
 
 def blob_of_line(line):
